@@ -3,6 +3,18 @@
 import json, os
 TECH = "bounded symbolic execution of the real Python source (import-hook instrumented, regenerated every run) + z3 SMT; counterexamples replayed on the unmodified JIT code"
 CHECKS = {
+ 'C01': dict(cat='model_checking', ref='DESIGN.md §5 C01', engine='E3-automaton',
+   tech="z3 BMC of the live transition tables against the documented automaton with recurrence-diameter unwinding assertion; real PandoraMachine executed on solver-enumerated words with EUF-stub steps, assertions on z3 terms",
+   text="Table level: language equivalence of the live _transitions_check table with the documented automaton is decided by z3 over a symbolic word of length |Q|^2+1 and the unwinding assertion shows that bound is complete; check/run tables mirror each other. Execution level (bounded): every accepted word up to length 5 (quick) / 7 (thorough), each step kind at most twice, with suffix variants, filling and several (num_scales, scale_factor), plus the shortest illegal extensions, is pushed through the real check_conf / check_pipeline_section / pandora.run with stub steps: acceptance, MachineError on rejection, state/event reset, order and multiplicity of step effects per scale and side, identity of a second check/run, and histories where another pipeline was checked before on the same machine.",
+   note="Step classes are EUF stubs (their parameter validity is C05); words longer than the executed bound are covered by the table-level result only; plugins out of scope. Trusted: z3, the transitions library (executed for real), my encoding of trigger semantics (validated against the library on all 11111 words of length <= 4, 111111 in thorough)."),
+ 'C08': dict(cat='other', ref='DESIGN.md §5 C08', engine='E3-automaton',
+   tech="real PandoraMachine callbacks executed with EUF-stub steps and symbolic interval ends; z3 (EUF + LRA) decides equality of right products with the left products of the mirrored run",
+   text="Structural symmetry of all step callbacks: for every legal pipeline word (bounded length, solver-enumerated) containing a validation step the real machine is run on (L,R,[a,b]) and on (R,L,[-b,-a]) with z3 Real interval ends and uninterpreted step functions; z3 proves right1 == left2 and left1 == right2 term-wise, right dataset empty without validation, left disparity unchanged by adding cross-checking. Catches swapped/forgotten arguments, wrong right interval, skipped or doubled right branch in any <step>_run.",
+   note="Stub contracts (listed in evidence): validation keeps the first map's disparities and reads only the second map's disparities; semantic_segmentation only attaches a layer read by optimization. Value-level symmetry of the numeric kernels is only covered where a value-level harness is listed in the evidence."),
+ 'C15': dict(cat='other', ref='DESIGN.md §5 C15', engine='E3-automaton',
+   tech="real pandora.run / read_multiscale_params / run_prepare / run_multiscale executed with EUF stubs, interval arithmetic symbolic (z3 Real); schedule and interval identities decided by z3",
+   text="Schedule: for every legal pipeline word containing multiscale (bounded length) and (num_scales, scale_factor) in {2,3,4}x{2,3}: matching executes once per scale from the coarsest level to the original images, steps after multiscale run once at full resolution, coarsest interval == user/sf^(n-1) and each finer interval == sf * disparity_range(coarser map, user interval of that level) as z3 validity queries over symbolic interval ends, for left and right.",
+   note="Pyramid construction (skimage) is a stub that records levels; disparity_range itself is an uninterpreted function at this level (its numerics are a separate harness when listed in evidence)."),
  'C03': dict(cat='other', ref='DESIGN.md §5 C03',
    text="Real WinnerTakesAll.to_disp/argmin_split/argmax_split executed symbolically on float32 cost volumes (bit-precise z3 FP), all values symbolic within the shape bounds (2x2x3 .. 3x4x4, block-straddling 99..201 sizes with a symbolic stripe across the 100-pixel boundary); z3 unsat = property holds for every cost/NaN/tie pattern inside the bound; nothing is claimed outside the listed shapes.",
    note="Assumes costs finite or NaN (documented precondition); trusted: z3 5.1, the symnp numpy model (argmin/argmax/where/mask stores), numpy for shape-only operations, xarray container behaviour (executed for real)."),
